@@ -55,7 +55,12 @@ SimNext ==
        tl \in R(Seqs(Lens, size)), rl \in R(Seqs(Lens, size)) :
       Store(size, kinds, evs, revs, tl, rl)
 
-Step == SimNext /\ hist' = Append(hist, [a |-> act', view |-> View'])
+(* a restart between two stores (never two in a row), for about every third step *)
+SimRestart == /\ Len(chain) > 0 /\ act.name # "Restart" /\ RandomElement(1..3) = 1
+              /\ \E g \in R(BOOLEAN) : Restart(g)
+
+Step == (SimRestart \/ SimNext)
+        /\ hist' = Append(hist, [a |-> act', view |-> View'])
 
 Emit ==
   /\ PrintT(ToJson(hist))
